@@ -52,9 +52,13 @@ def case_coq(case):
   for r, fs in enumerate(case['files']):
     for path, text in fs.items():
       files.append('((%s, %s), %s)' % (C.cnat(r), C.cstr(subst(path, d)), gfile_coq(text)))
-  env = ('{| e_files := %s; e_readers := %s; e_prefixes := %s; e_modules := %s |}' % (
+  plugins = case.get('plugins') or {}
+  mod_regs = C.clist(['(%s, %s)' % (C.cstr(m), C.clist([
+      '{| cs_sel := %s; cs_args := ["a"; "b"]; cs_varkw := true; cs_allow := (@nil string); cs_deny := (@nil string) |}' % C.cstr(sel)
+      for sel in sels])) for m, sels in plugins.items()]) if plugins else '(@nil (string * list cspec))'
+  env = ('{| e_files := %s; e_readers := %s; e_prefixes := %s; e_modules := %s; e_mod_regs := %s |}' % (
       C.clist(files), C.clist([C.cnat(i) for i in range(len(case['files']))]),
-      C.cstrs([subst(p, d) for p in case['prefixes']]), C.cstrs(case.get('modules', []))))
+      C.cstrs([subst(p, d) for p in case['prefixes']]), C.cstrs(list(case.get('modules', [])) + list(plugins)), mod_regs))
   calls = []
   for c in ([] if case.get('engine2') else case['calls']):
     if c[0] == 'text':
